@@ -100,7 +100,8 @@ class Builder(Client):
             return {"op": "new_unitary", "n": r.randint(2, 5),
                     "seed": r.randrange(1 << 30),
                     "kind": r.choice(["haar", "haar", "identity", "perm",
-                                      "sparse", "block"]), "out": out}
+                                      "sparse", "block", "near", "near"]),
+                    "out": out}
         names = GATE_1Q + GATE_ROT + ["CZ", "CNOT", "CZ_Heralded",
                                        "CNOT_Heralded"]
         if cfg.get("big_gates"):
